@@ -105,4 +105,36 @@ CHECKS.update({
                  "multisets, request-queue slots checked as subset + count)."),
     },
 })
+CHECKS.update({
+    "C15": {
+        "families": ("gov",),
+        "level": "proof",
+        "technique": "Lean 4 theorems (per-kind layout / lossless / injective, spec soundness, no-panic, purity) over a hand model of adminserver.go+payloads.go+governance.go and of the Ralph governance parsers parameterised by offsets re-extracted from the .ral sources; tied by differential execution of the real InjectGovernanceVAA",
+        "text": ("For each of the nine governance kinds: accepted => payload = module(32)||action||fields with every field at the slice the Ralph "
+                 "parser reads and total length = the parser's size equation (constants of Whv.Gen.C15, regenerated from the contracts each run), "
+                 "and the parser recovers every requested value un-wrapped (hence same-payload requests asked for the same values); no "
+                 "request/config/history makes the handler panic; the result is a function of config+request (same digests across operators, any "
+                 "hash); every injected VAA comes from the configured emitter with an in-range body. The executable Spec proved of the model "
+                 "(c15_spec_sound) is evaluated on the implementation's own VAAs for generated requests across and beyond wire ranges, then model "
+                 "and implementation are compared on status code, message and VAAs."),
+        "note": ("Trusted: Lean kernel; checks/c15.py regex extraction (contracts never executed; Whv.Gov.Ral is a hand model around the extracted "
+                 "constants); harness+driver; p2p stub; Keccak oracle; requests proto-round-tripped, gRPC server not started. Non-atomic "
+                 "multi-message injection modelled as is."),
+    },
+    "C11": {
+        "families": ("alphutil",),
+        "level": "proof",
+        "technique": "Lean 4 theorems (exact iff-characterisations of every converter, inversion of ToWormholeMessage, round trips incl. a proved base58 codec) over a hand model of alephium/utils.go tied by differential execution; contract layout re-extracted from the .ral sources and compared by decide",
+        "text": ("For every field list: ToWormholeMessage accepts iff there are six fields of the declared types whose numerals/hex denote a 32-byte "
+                 "sender, target<2^16, sequence<2^64, 4-byte nonce, level<2^8, and then returns exactly those values (c11_accepted_exact, "
+                 "c11_fit_decoded, c11_unfit_rejected; never wrapped: the equality is between integers); the publication carries chain id 255 and "
+                 "the block timestamp to the millisecond for every int64; hex<->Byte32, contract id<->address (base58 round trip proved for the "
+                 "modelled codec) and the attestation payload against the Ralph encoder's layout are mutually inverse. The Go functions are run on "
+                 "boundary sweeps at every field position plus a seeded stream and compared with the model; the Spec is evaluated on the "
+                 "implementation's own results."),
+        "note": ("Trusted: Lean kernel; harness+driver; regex extraction of the .ral/Go facts; math/big, encoding/hex, time, go-ethereum HexToHash, "
+                 "btcutil base58 are modelled and compared, not verified; contracts not executed. ToContractId does not check the 0x03 prefix "
+                 "(noted, not flagged: no production caller)."),
+    },
+})
 NOT_BUILT = {}
